@@ -232,7 +232,9 @@ func (m *machine) runInitFrame(fr *frame, executed map[*ssa.Global]bool) {
 				defer func() {
 					if r := recover(); r != nil {
 						switch r.(type) {
-						case engineErr, targetPanic, runtime.Error:
+						case pathAbort, violationStop, killGoroutine:
+							panic(r)
+						default:
 							failed = true
 							why := describePanic(r)
 							if len(why) > 300 {
@@ -246,8 +248,6 @@ func (m *machine) runInitFrame(fr *frame, executed map[*ssa.Global]bool) {
 									m.initWarnings = append(m.initWarnings, fmt.Sprintf("%s.%s failed: %s", fn.Pkg.Pkg.Path(), callee.Name(), why))
 								}
 							}
-						default:
-							panic(r)
 						}
 					}
 				}()
@@ -308,7 +308,12 @@ func (fr *frame) runDefers() {
 	}
 }
 
-func lookupMethod(i *machine, typ types.Type, meth *types.Func) *ssa.Function {
+func lookupMethod(i *machine, typ types.Type, meth *types.Func) (fn *ssa.Function) {
+	defer func() {
+		if r := recover(); r != nil {
+			panic(engineError(fmt.Sprintf("method lookup %v.%s: %v", typ, meth.Name(), r)))
+		}
+	}()
 	return i.prog.LookupMethod(typ, meth.Pkg(), meth.Name())
 }
 
